@@ -6,7 +6,7 @@ import re
 from .. import AnalysisError
 from ..cfg import ALL_KINDS, NORMAL_KINDS, iter_own
 from ..guards import canon
-from ..lib import inlined, inlined_guards, guard_forms, key_of, render
+from ..lib import inlined, inlined_expr, inlined_guards, guard_forms, key_of, render
 from ..report import describe, rule
 
 P = "C20"
@@ -618,3 +618,25 @@ def c20_10(ctx, r):
         r.check(n.id not in after, f"log_event({what or arg}) precedes generate_reports", key_of(fn, f"event {what or arg} logged after the reports"), fn.loc(c),
                 f"the submitter logs the event `{what or arg}` after generate_reports() has consolidated the event files: it never reaches the events summary the reports and `jade show-events` read",
                 "every structured event ... appears in the consolidated summary exactly once")
+
+
+@rule(P, "C20.11", "T8", "each node's resource statistics go to a file of their own: the monitor is named after the batch *and* the node", min_obligations=1)
+def c20_11(ctx, r):
+    """stats/<name>_resource_stats.json (aggregation) and the <name> source of periodic events are keyed by the monitor's name.  Every node of a
+    multi-node batch runs JobRunner._run_jobs with the same batch id; only the node id tells them apart.  Without it the last node overwrites
+    the others' file, and the reported min / max / mean are those of one node (or, in periodic mode, of all nodes mixed under one source)."""
+    fn = ctx.fn("JobRunner._run_jobs", "C20.11")
+    n = 0
+    for s in ctx.cg.sites_in(fn):
+        cn = (s.constructs or "").split(".")[-1]
+        if cn not in ("ResourceMonitorAggregator", "ResourceMonitorLogger"):
+            continue
+        n += 1
+        a = s.node.args[0] if s.node.args else next((k.value for k in s.node.keywords if k.arg == "name"), None)
+        e = inlined_expr(ctx, fn, a) if a is not None else None
+        attrs = {x.attr for x in ast.walk(e) if isinstance(x, ast.Attribute) and isinstance(x.value, ast.Name) and x.value.id == fn.params[0]} if e is not None else set()
+        r.check({"_batch_id", "_node_id"} <= attrs, f"{cn} is named after batch and node", key_of(fn, f"{cn} name lacks {sorted({'_batch_id', '_node_id'} - attrs)}"), s.loc,
+                f"the {cn} is named `{ctx.src(e) if e is not None else None}`, which does not depend on {sorted({'_batch_id', '_node_id'} - attrs)}: the nodes of a multi-node batch write the same stats file / event source, "
+                "so the statistics reported are not those of the samples taken on each node", "the true minimum, maximum and mean of the samples taken")
+    if n < 1:
+        raise AnalysisError("C20.11", "no resource monitor constructed in JobRunner._run_jobs")
